@@ -1,7 +1,9 @@
 package bad
 
+import "example.com/fix/good"
+
 func First(x uint64) uint64 {
-	return x + 1
+	return good.Add(x, 1)
 }
 
 
